@@ -208,6 +208,11 @@ def run(ctx, eng):
                'self.encoder is handed to the stream', node=fi.node)
     ctx.assume('hpack\'s own correctness and the decode side are not '
                'decided')
+    cm.include(ctx, eng, 'C11',
+               lambda o: o.rule == 'COH.apply-map' and
+               o.desc.startswith('remote HEADER_TABLE_SIZE '),
+               'the encoder follows the peer\'s HEADER_TABLE_SIZE whatever '
+               'else the same SETTINGS frame changed')
     cm.include(ctx, eng, 'C25',
                lambda o: o.rule == 'FLOW.codec' and isinstance(o.where, str)
                and o.where.endswith('initiate_upgrade_connection'),
